@@ -37,6 +37,7 @@ def main():
         print("REFUSING: /repo has uncommitted changes:", st.stdout)
         return 2
     results = []
+    restore = []
     demo = next((f for f in ("demo.py", "test_demo.py") if os.path.exists(os.path.join(seed, f))), None)
     try:
         if args.demo and demo:
@@ -51,12 +52,19 @@ def main():
             results.append((name, "demo-patched", r1.returncode, ""))
         for c in checks:
             t = time.time()
+            ev = os.path.join(VERIF, "evidence", f"{c}.json")
+            saved = open(ev).read() if os.path.exists(ev) else None
+            restore.append((ev, saved))
             r = sh(f"cd {VERIF} && /venv/bin/python -m bsv.check {c} --tier {args.tier} --max-replays 3", env=dict(os.environ, BSV_NO_REPLAY_FILES="1"))
             lines = [ln for ln in r.stdout.splitlines() if ln.startswith("VIOLATION") or ln.startswith("  signature") or ln.startswith("HARNESS")]
             sig = next((ln.strip()[:260] for ln in lines if ln.startswith("  signature")), lines[0][:200] if lines else "")
             results.append((name, c, r.returncode, f"{time.time() - t:.0f}s {sig}"))
     finally:
         sh(f"git -C {REPO} checkout -- .")
+        for ev, saved in restore:  # evidence must describe the unchanged tree, not the mutant
+            if saved is not None:
+                with open(ev, "w") as f:
+                    f.write(saved)
     for r in results:
         print(*r)
     return 0
